@@ -840,6 +840,17 @@ def c17_r1(ctx):
     f = ctx.P.fn(HIST_INSERT)
     ctx.saw(f)
     ins = f.calls_to("std::collections::HashMap::<K, V, S>::insert")
+    if not ins and [c for c in f.calls if c.name == "entry" and "HashMap" in c.path]:
+        # the entry API: `match map.entry(k) { Occupied(e) => .. e.get() .., Vacant(v) => v.insert(x) }`.
+        # What can be decided without a reader for the whole form: an occupied entry must stay
+        # as it is - removing or replacing it loses or overwrites the earlier record.
+        ctx.inst("map entry", f.where(0))
+        bad = [c for c in f.calls if "OccupiedEntry" in (c.callee.get("full") or c.path) and c.name in ("remove", "remove_entry", "insert", "replace_entry", "replace_key")]
+        for c in bad:
+            ctx.viol((f.id, "occupied-entry-" + c.name), "the record that already exists for these sources is %s: what an earlier execution produced is no longer there to compare the next one with (and an unchanged rule is executed again)" % ("removed" if c.name.startswith("remove") else "replaced"), c.where)
+        if bad:
+            return
+        raise AnalysisError("idiom not recognised: %s uses the map's entry API (the rule reads get + insert)" % f.id)
     ctx.need(ins, "HashMap::insert in RuleHistory::insert")
     gets = f.calls_to("std::collections::HashMap::<K, V, S>::get")
     for i in ins:
